@@ -446,11 +446,12 @@ func (r *Router) RunHandlers(ctx context.Context) error {
 
 		h.messagesCh = messages
 		h.started = true
-		close(h.startedCh)
-		verifhook.At("router.runhandlers.started", h.name, "")
 
+		// Stop() and Stopped() must be usable as soon as Started() is closed
 		h.stopFn = cancel
 		h.stopped = make(chan struct{})
+		close(h.startedCh)
+		verifhook.At("router.runhandlers.started", h.name, "")
 
 		go func() {
 			defer cancel()
